@@ -1,13 +1,16 @@
 ---- MODULE MCActor ----
 EXTENDS Actor
 E(k, t, h) == [a |-> 1, k |-> k, ts |-> t, h |-> h, len |-> IF h = 0 THEN 0 ELSE 1]
-R(op, d) == [op |-> op, d |-> d, sync |-> FALSE, sub |-> FALSE, sid |-> 1, e |-> E(<<>>, 1, 1), a |-> 1, k |-> <<>>, kind |-> "read"]
+R(op, d) == [op |-> op, d |-> d, sync |-> FALSE, sub |-> FALSE, sid |-> 1, e |-> E(<<>>, 1, 1), a |-> 1, k |-> <<>>, kind |-> "read",
+            pol |-> DefaultPolicy, report |-> <<>>]
+OnlyZero == [kind |-> "only", filters |-> << <<"prefix", <<0>> >> >>]
 Reqs == {R("Open", 1), [R("Open", 1) EXCEPT !.sync = TRUE], R("Close", 1), R("Drop", 1),
          [R("SetSync", 1) EXCEPT !.sync = TRUE], [R("SetSync", 1) EXCEPT !.sync = FALSE],
          [R("InsertLocal", 1) EXCEPT !.e = E(<<0>>, 1, 1)], [R("InsertRemote", 1) EXCEPT !.e = E(<<0>>, 2, 1)],
          [R("DeletePrefix", 1) EXCEPT !.e = E(<<>>, 3, 0)],
          R("GetMany", 1), R("SyncInit", 1), R("GetState", 1), R("Subscribe", 1),
-         [R("Open", 2) EXCEPT !.sync = TRUE], [R("InsertRemote", 2) EXCEPT !.e = E(<<1>>, 1, 1)], R("Close", 2)}
+         [R("Open", 2) EXCEPT !.sync = TRUE], [R("InsertRemote", 2) EXCEPT !.e = E(<<1>>, 1, 1)], R("Close", 2),
+         [R("SetPolicy", 1) EXCEPT !.pol = OnlyZero], R("GetPolicy", 1), [R("HasNews", 1) EXCEPT !.report = << <<1, 2>> >>]}
 Progs3 == {<<a, b, c>> : a \in Reqs, b \in Reqs, c \in Reqs}
 Progs2 == {<<a, b>> : a \in Reqs, b \in Reqs}
 UA == {}
